@@ -41,6 +41,9 @@ def rules(model: Model, tier: str) -> List[RuleResult]:
     ac.ac3_create_graph(model, R3, files={RF})
     ac.ac4_allow_unused(fc, R4)
     ac.ac5_options_forwarding(model, fc, R5, {"solve"})
+    # the linear solve that implements this backward must itself pass its backward options on to the nested adjoint solve, otherwise
+    # the options select the solver for the first derivative only
+    ac.ac5_options_forwarding(model, ac.get_fncls(model, "solve_torchfcn"), R5, {"solve"})
     ac.ac6_layout(model, fc, R6)
     _ift_system(fc, J)
     _pullback(fc, U)
